@@ -51,8 +51,7 @@ theorem c17_points (vw : View) (call : Call) (xn yn : String) (carry : Bool) (la
     ((mkSeries vw call xn yn carry lab).x).zip ((mkSeries vw call xn yn carry lab).y) =
       ((sliceXs vw call xn yn carry).zip (sliceYs vw call xn yn carry)).filter
         fun p => p.1.isFinite && p.2.isFinite := by
-  simp only [mkSeries, sliceXs, sliceYs]
-  rw [applyMask_zipWith_zip]
+  rw [(xy_mkSeries vw call xn yn carry lab).1, (xy_mkSeries vw call xn yn carry lab).2, applyMask_zipWith_zip]
   simp only [Gen.maskIsBothFinite, Gen.Default.maskIsBothFinite]
 
 /-- **carried variables**: c / y_err / x_err go through the same mask, so the k-th carried value belongs to the k-th
@@ -91,6 +90,26 @@ theorem c17_points_carried (vw : View) (call : Call) (xn yn : String) (lab : Opt
     refine ⟨_, by rw [hc hk, hn]; rfl, ?_⟩
     rw [hx, hy]; exact key n
 
+/-- **the mask is made of x and y alone**: the arrays whose finiteness enters `not_null` are `data['x']` and `data['y']`
+(read off the source), so whatever error / colour variables are carried along and whatever they hold, the drawn
+points are the same as without them (`carry := false`) whenever the carried variables bring no new dimension -/
+theorem c17_mask_arrays : Gen.maskArrays = ["x", "y"] := by
+  simp only [Gen.maskArrays, Gen.Default.maskArrays]
+
+theorem c17_mask_ignores_carried (vw : View) (call : Call) (xn yn : String) (carry : Bool) (bd : List String)
+    (xs ys : List Cell) :
+    notNull vw bd xs ys (extraMaskNames call xn yn carry) = zipWith (fun a b => a.isFinite && b.isFinite) xs ys := by
+  rw [notNull_mkSeries]
+  simp only [Gen.maskIsBothFinite, Gen.Default.maskIsBothFinite]
+
+/-- a point with finite x and y is drawn even if its error / colour value is not finite: the k-th position of the slice
+is kept iff x and y are finite there, and the carried value kept with it is whatever the variable holds (`c17_points_carried`) -/
+theorem c17_point_kept_iff (vw : View) (call : Call) (xn yn : String) (carry : Bool) (bd : List String)
+    (xs ys : List Cell) (k : Nat) (hx : k < xs.length) (hy : k < ys.length) :
+    (notNull vw bd xs ys (extraMaskNames call xn yn carry))[k]? = some (xs[k].isFinite && ys[k].isFinite) := by
+  rw [c17_mask_ignores_carried]
+  simp [getElem?_zipWith, getElem?_eq_getElem hx, getElem?_eq_getElem hy]
+
 /-- membership / order form of `c17_points`: a pair is drawn iff it is a pair of the slice with both parts finite;
 drawn pairs keep the slice's order; every drawn value is finite -/
 theorem c17_points_mem (vw : View) (call : Call) (xn yn : String) (carry : Bool) (lab : Option String) :
@@ -115,6 +134,7 @@ theorem c17_all_nan_series_empty (vw : View) (call : Call) (xn yn : String) (car
     obtain ⟨p, hp, rfl⟩ := mem_zipWith_zip _ _ _ _ hb
     have := h p hp
     simpa only [Gen.maskIsBothFinite, Gen.Default.maskIsBothFinite] using this
+  rw [(xy_mkSeries vw call xn yn carry lab).1, (xy_mkSeries vw call xn yn carry lab).2]
   exact ⟨applyMask_all_false _ _ hm, applyMask_all_false _ _ hm⟩
 
 /-! ### histogram -/
@@ -205,6 +225,28 @@ theorem c17_colour_structure_partial {Q C : Type} (cmap : Q → C) (norm : Cell 
     simp only [quantOf, hk, hc, Option.map_map]
     congr 1
 
+/-- **colour limits**: a limit passed by the caller is the limit of the normalisation, whatever its value (zero and
+negative numbers included); an end that is not given is the `zlims` entry if there is one, else the end of the finite
+data range of the colour quantity.  (From the extracted defaulting tests of `calc_color_norm`.) -/
+theorem c17_colour_limits (call : Call) :
+    (∀ l, call.vmin = some l → (colourLimits call).1 = .given) ∧
+    (∀ l, call.vmax = some l → (colourLimits call).2 = .given) ∧
+    (call.vmin = none → (colourLimits call).1 = if call.zlimLo && zlimsApply call then .zlim else .data) ∧
+    (call.vmax = none → (colourLimits call).2 = if call.zlimHi && zlimsApply call then .zlim else .data) ∧
+    (colourLimits call).1 ≠ .unset ∧ (colourLimits call).2 ≠ .unset := by
+  simp only [colourLimits, limitSource, Gen.vminDefaulted, Gen.Default.vminDefaulted, Gen.vmaxDefaulted,
+    Gen.Default.vmaxDefaulted]
+  refine ⟨?_, ?_, ?_, ?_, ?_, ?_⟩
+  · intro l h; simp [h]
+  · intro l h; simp [h]
+  · intro h; simp [h]
+  · intro h; simp [h]
+  · cases call.vmin <;> simp <;> split <;> simp
+  · cases call.vmax <;> simp <;> split <;> simp
+
+/-- the figure carries that normalisation, one for all its panels -/
+theorem c17_figure_limits (ds : DS) (call : Call) : (plot ds call).limits = colourLimits call := rfl
+
 /-- **legend or colour bar** (from the extracted bound): with no explicit choice, 2..10 series get a legend and no colour
 bar; more than 10 colour-mapped series get a colour bar and no legend; a `c` variable always gets a colour bar;
 explicit choices are honoured -/
@@ -288,6 +330,21 @@ example : (plot exDS exCallRow).panels.flatten.map (fun p => (p.i, p.j)) = [(0, 
 
 example : (plot exDS exCallRow).panels.flatten.map (fun p => p.series.map (·.y)) =
     [[[.fin 0, .fin 1]], [[.fin 3]], [[]]] := by decide
+
+-- y_err is NaN / inf at points with finite (x, y): all three points of each series stay, the bars keep their values
+def exDSErr : DS :=
+  { exDS with vars := exDS.vars ++ [{ name := "ye", dims := ["z", "x"], cells := [.nan, .fin 11, .fin 12, .inf false, .fin 14, .fin 15] }] }
+
+example : (plotSingle { ds := exDSErr } { exCall with yErr := some "ye" }).series.map (·.x) = [[.fin 100, .fin 101], [.fin 101], []] := by decide
+
+example : (plotSingle { ds := exDSErr } { exCall with yErr := some "ye" }).series.map (·.ye) =
+    [some [.nan, .fin 11], some [.inf false], some []] := by decide
+
+-- vmin = 0 is a given limit; an end left out comes from the data (or zlims)
+example : colourLimits { exCall with vmin := some ⟨true⟩ } = (.given, .data) := by decide
+example : colourLimits { exCall with vmin := some ⟨false⟩, vmax := some ⟨true⟩ } = (.given, .given) := by decide
+example : colourLimits { exCall with zstr := false, zlimHi := true, vmin := some ⟨true⟩ } = (.given, .zlim) := by decide
+example : colourLimits exCall = (.data, .data) := by decide
 
 example : legendOrColorbar 10 none none false true = (true, false) ∧ legendOrColorbar 11 none none false true = (false, true) := by decide
 
